@@ -42,7 +42,11 @@ MANIFEST = dict(
          "definitions; the Python fallback likewise) is read off as a floating-point expression tree over datum, minimum and bin size at every store into "
          "the array of counts: it must be the truncation of the single double-precision quotient (datum - min) / binsize, the one form for which IEEE-754 "
          "guarantees that the sorted position r handed over by equal-occupancy binning is counted in bin floor(r / nperbin) for every r and nperbin (a "
-         "product with a reciprocal, a difference of quotients, single precision or a rounding conversion is reported).",
+         "product with a reciprocal, a difference of quotients, single precision or a rounding conversion is reported).  "
+         "Which data are binned at all: every rule above takes the limited sort index (self['wsort']) as the stable sort index restricted to the data with "
+         "min <= x <= max, both limits inclusive; that premise is decided on the method that stores it by the per-path value-flow analysis of the limits "
+         "that check C05 defines (checks.C05.limits: a mask in sorted order, or a slice of the sorted index between numpy.searchsorted positions whose "
+         "side makes the bound inclusive), and reported here under R14.7.",
     note="Not decided: numerical equality. Trusted: numpy "
          "reductions, slice-view aliasing and copy-on-overlap of numpy slice assignment, numpy.delete / append / concatenate, sympy normaliser, the histogram "
          "engine's reverse-index layout (offsets 0..nbin, then the members bin by bin, at least one datum); in the direct "
@@ -58,7 +62,7 @@ F = {n: sp.Function(n) for n in ("MEAN", "STD", "MEDIAN", "SUM")}
 
 # rules that keep their verdict however the code is laid out (decided by term equality over the values the result keys hold and by
 # path conditions decided per scenario; nothing in this check looks at statement text, local names or statement order)
-SEMANTIC = ('R14.1', 'R14.2', 'R14.3', 'R14.4', 'R14.5', 'R14.6')
+SEMANTIC = ('R14.1', 'R14.2', 'R14.3', 'R14.4', 'R14.5', 'R14.6', 'R14.7')
 
 
 # ---------------------------------------------------------------------------------------------------------------------------------
@@ -1265,6 +1269,13 @@ class BEnv(symx.Env):
             return r
         if full.startswith("numpy.") and nm in ("zeros", "ones", "empty", "full") and c.args:
             n = self.ev(c.args[0])
+            rows = None
+            if isinstance(n, (tuple, list)) and len(n) == 1:
+                n = n[0]                     # shape (n,)
+            elif isinstance(n, (tuple, list)) and len(n) == 2 and isinstance(n[0], (int, sp.Integer)) and not isinstance(n[0], bool) \
+                    and 1 <= int(n[0]) <= 64:
+                # shape (k, n) with a literal k: k rows over the bins, each with its own storage (unpacked or taken by row number)
+                rows, n = int(n[0]), n[1]
             if symx._is_expr(n) and not sp.sympify(n).is_number:
                 if nm == "full":
                     fv = c.args[1] if len(c.args) > 1 else kwarg(c, "fill_value")
@@ -1272,6 +1283,8 @@ class BEnv(symx.Env):
                 else:
                     init = {"zeros": sp.Integer(0), "ones": sp.Integer(1), "empty": sp.Symbol("UNINITIALISED")}[nm]
                 if symx._is_expr(init):
+                    if rows is not None:
+                        return tuple(Arr(sp.sympify(init), sp.sympify(n)) for _ in range(rows))
                     return Arr(sp.sympify(init), sp.sympify(n))
         if isinstance(f, ast.Name) and f.id == "len" and "len" not in self.vars and len(c.args) == 1 and not c.keywords:
             n = self._count(self.ev(c.args[0]))
@@ -1833,6 +1846,7 @@ def run(chk):
     equal_occupancy(chk, repo)
     engine_bin_number(chk, repo)
     option_plumbing(chk, repo)
+    selected_data(chk)
 
 
 # ---------------------------------------------------------------------------------------------------------------------------------
@@ -3628,3 +3642,52 @@ def option_plumbing(chk, repo):
                 continue          # a helper that consumes the value itself, or passes on something it computed from it
             chk.ob("R14.6", "options::%s::%s" % (fi.name, o), ok, where,
                    "the option `%s` of %s() arrives at the parameter of the same meaning in the Binner code it calls (%s)" % (o, fi.name, msg))
+
+
+# ---------------------------------------------------------------------------------------------------------------------------------
+# which data are binned
+# ---------------------------------------------------------------------------------------------------------------------------------
+# R05.4 instance of checks.C05.limits -> what it means for this property
+_SELECTED = {
+    "limits::inclusive-conjunction": "the members of the bins are drawn from exactly the data with min <= x <= max, a datum equal to a limit included",
+    "limits::filtered-sort-index": "the limited sort index the bins are cut from is the stable sort index restricted to the data within the limits",
+    "limits::filter-applied-when-a-limit-is-given": "data outside a given limit are in no bin",
+}
+
+
+class _Selected:
+    """stands in for the Check object while C05's analysis of the limits runs: the instances that say which data reach the binning
+    are reported under this property's rule, the others (binning origin, defaults, state carried between calls) are C05's alone"""
+
+    def __init__(self, chk):
+        self._chk = chk
+        self.seen = set()
+
+    def ob(self, rule, key, ok, where="", msg="", **kw):
+        if key in _SELECTED:
+            self.seen.add(key)
+            return self._chk.ob("R14.7", "selected-data::" + key.split("::", 1)[1], ok, where, "%s: %s" % (_SELECTED[key], msg))
+        return bool(ok)
+
+    def obt(self, rule, key, ok, fi, where="", msg="", **kw):
+        return self.ob(rule, key, ok, where or (fi[0] if isinstance(fi, (list, tuple)) else fi).where(), msg)
+
+    def __getattr__(self, name):
+        return getattr(self._chk, name)
+
+
+def selected_data(chk):
+    """R14.7: every statement of the property is about "the members of each bin" and, for equal-occupancy binning, about runs of
+    nperbin consecutive sorted data: of the data within [min, max], both ends included (min / max: "value to include in histogram").
+    The rules above start from the limited sort index; this one decides that the limited sort index holds exactly those data, on
+    every path of the method that stores it and for every combination of given / absent limits."""
+    px = _Selected(chk)
+    try:
+        from checks import C05 as _c05
+        _c05.limits(px, PyRepo())
+        err = None
+    except Exception as e:           # the analysis of the limits is not available / did not get through: no verdict
+        err = "%s: %s" % (type(e).__name__, str(e)[:200])
+    for key in sorted(set(_SELECTED) - px.seen):
+        chk.ob("R14.7", "selected-data::" + key.split("::", 1)[1], None, "", "%s: the analysis of the limits gave no result for this (%s)"
+               % (_SELECTED[key], err or "instance not produced"))
